@@ -3,25 +3,36 @@
 (* One action per element. An element is                                         *)
 (*   [kind \in {"CREATE","ADD_META","REVERT","DEL_META","UNKNOWN","MALFORMED"},   *)
 (*    fail \in BOOLEAN]   (fail: the backend call of an executable element fails) *)
-(* Design switches: what the loop does with an unknown action / unparsable data.  *)
+(* Each bulk also has a pattern saying which positions carry request attributes of *)
+(* their own (idempotency key; for CREATE also reference, timestamp, an extra      *)
+(* metadata key): none, all, the odd or the even positions. What the backend is    *)
+(* handed for an element must be that element's own attributes (seen).             *)
+(* Design switches: what the loop does with an unknown action / unparsable data,   *)
+(* and whether the per-element request values start afresh for every element.      *)
 EXTENDS Naturals, Sequences, FiniteSets, TLC, Json, SequencesExt
 
 CONSTANTS MaxLen, OutFile,
           UnknownYieldsResult,    \* TRUE: an unknown action gets an error result (and counts as a failure)
-          MalformedYieldsResult   \* TRUE: unparsable element data gets an error result instead of aborting the response
+          MalformedYieldsResult,  \* TRUE: unparsable element data gets an error result instead of aborting the response
+          ParamsPerElement        \* TRUE: parameters / decoded data start afresh for every element (FALSE: absent ones keep the previous element's)
 
 Kinds == {"CREATE", "ADD_META", "REVERT", "DEL_META"}
 Elems == {[kind |-> k, fail |-> f] : k \in Kinds, f \in BOOLEAN}
          \cup {[kind |-> "UNKNOWN", fail |-> TRUE], [kind |-> "MALFORMED", fail |-> TRUE]}
 Executable(e) == e.kind \in Kinds
 
-VARIABLES bulk, cont, i, results, executed, failed, aborted, stopped
-vars == <<bulk, cont, i, results, executed, failed, aborted, stopped>>
+VARIABLES bulk, cont, pat, i, results, executed, failed, aborted, stopped, seen, carry
+vars == <<bulk, cont, pat, i, results, executed, failed, aborted, stopped, seen, carry>>
+Patterns == {"none", "all", "odd", "even"}
+Rich(p, k) == p = "all" \/ (p = "odd" /\ k % 2 = 1) \/ (p = "even" /\ k % 2 = 0)
+\* the attributes element k carries: its own position, or 0 for none
+Own(p, k) == IF Rich(p, k) THEN k ELSE 0
 
 RECURSIVE SeqsUpTo(_)
 SeqsUpTo(n) == IF n = 0 THEN {<<>>} ELSE LET s == SeqsUpTo(n - 1) IN s \cup {Append(x, e) : x \in {y \in s : Len(y) = n - 1}, e \in Elems}
 
-Init == /\ bulk \in SeqsUpTo(MaxLen) /\ cont \in BOOLEAN
+Init == /\ bulk \in SeqsUpTo(MaxLen) /\ cont \in BOOLEAN /\ pat \in Patterns
+        /\ seen = <<>> /\ carry = 0
         /\ i = 1 /\ results = <<>> /\ executed = <<>> /\ failed = FALSE /\ aborted = FALSE /\ stopped = FALSE
 
 Err == [ok |-> FALSE]
@@ -32,20 +43,22 @@ Process ==
     /\ LET e == bulk[i] IN
        CASE Executable(e) ->
               /\ executed' = Append(executed, i)
+              /\ LET passed == IF ParamsPerElement \/ Own(pat, i) # 0 THEN Own(pat, i) ELSE carry
+                 IN seen' = Append(seen, passed) /\ carry' = passed
               /\ results' = Append(results, IF e.fail THEN Err ELSE Ok)
               /\ failed' = (failed \/ e.fail)
               /\ stopped' = (e.fail /\ ~cont)
               /\ UNCHANGED aborted
          [] e.kind = "UNKNOWN" ->
               IF UnknownYieldsResult
-              THEN /\ results' = Append(results, Err) /\ failed' = TRUE /\ stopped' = ~cont /\ UNCHANGED <<executed, aborted>>
-              ELSE UNCHANGED <<results, executed, failed, aborted, stopped>>
+              THEN /\ results' = Append(results, Err) /\ failed' = TRUE /\ stopped' = ~cont /\ UNCHANGED <<executed, aborted, seen, carry>>
+              ELSE UNCHANGED <<results, executed, failed, aborted, stopped, seen, carry>>
          [] e.kind = "MALFORMED" ->
               IF MalformedYieldsResult
-              THEN /\ results' = Append(results, Err) /\ failed' = TRUE /\ stopped' = ~cont /\ UNCHANGED <<executed, aborted>>
-              ELSE /\ results' = <<>> /\ aborted' = TRUE /\ stopped' = TRUE /\ UNCHANGED <<executed, failed>>
+              THEN /\ results' = Append(results, Err) /\ failed' = TRUE /\ stopped' = ~cont /\ UNCHANGED <<executed, aborted, seen, carry>>
+              ELSE /\ results' = <<>> /\ aborted' = TRUE /\ stopped' = TRUE /\ UNCHANGED <<executed, failed, seen, carry>>
     /\ i' = i + 1
-    /\ UNCHANGED <<bulk, cont>>
+    /\ UNCHANGED <<bulk, cont, pat>>
 
 Done == (stopped \/ i > Len(bulk)) /\ UNCHANGED vars
 Next == Process \/ Done
@@ -65,6 +78,9 @@ StopsAtFailure == ~cont => \A k \in 1..Len(executed) : \A j \in 1..(executed[k] 
 \* the response signals failure exactly when some processed element failed
 SignalsFailure == Finished => ((Status = 400) = \E k \in 1..Processed : bulk[k].fail)
 
+\* every executed element is handed its own attributes, nobody else's
+ElementsIndependent == \A k \in 1..Len(seen) : seen[k] = Own(pat, executed[k])
+
 Emit == TLCGet("stats").generated >= 0 /\
-        ndJsonSerialize(OutFile, SetToSeq({[bulk |-> b, cont |-> c] : b \in SeqsUpTo(MaxLen) \ {<<>>}, c \in BOOLEAN}))
+        ndJsonSerialize(OutFile, SetToSeq({[bulk |-> b, cont |-> c, pat |-> p] : b \in SeqsUpTo(MaxLen) \ {<<>>}, c \in BOOLEAN, p \in Patterns}))
 =============================================================================
